@@ -92,6 +92,11 @@ def cases(shard, nshards, seed, tier):
     for t in range(2 if tier == "quick" else 6):
         if mine():
             yield {"family": "lib-external-conflicts-numbered-from-zero", "module": "external_conflicts", "argv": ["{in}", f"{seed}:zero:{t}"], "zero_based": "tests/1A1T_1_B.cif"}
+    # chains whose names differ by letter case only (A / a, B / b: a duplex and a displaced copy of it, numbered alike):
+    # the external list pairs a nucleotide with the equally numbered residues of both
+    for t in range(2 if tier == "quick" else 6):
+        if mine():
+            yield {"family": "lib-external-conflicts-chains-differing-by-case", "module": "external_conflicts", "argv": ["{in}", f"{seed}:case:{t}"], "case_twins": "tests/1DFU_1_M-N.cif"}
     # uridines presented as thymidines (DT): the thymine rows of the edge / donor / acceptor tables decide, with the
     # many non-canonical pairs of tRNA and riboswitch folds
     for src in ("tests/1ehz-assembly-1.cif", "tests/4qln.cif", "tests/1E7K_1_C.cif"):
@@ -320,6 +325,21 @@ def run_case(case, rec):
             for r in rows:
                 r["resseq"] -= low
             inp = os.path.join(workdir, "numbered-from-zero.cif")
+            open(inp, "w").write(emit.emit_cif(rows, label_seq="index"))
+        elif "case_twins" in case:
+            from vmon import emit, gen3d
+
+            core.setup_path()
+            rows = emit.rows_from_structure(gen3d.load(case["case_twins"]))
+            names = {}
+            for r in rows:
+                names.setdefault(r["chain"], "ABCDEFGH"[len(names)])
+            first = [dict(r, chain=names[r["chain"]]) for r in rows]
+            copy = [dict(r, chain=r["chain"].lower(), x=round(r["x"] + 70.0, 3), y=round(r["y"] - 45.0, 3)) for r in first]
+            rows = first + copy
+            for i, r in enumerate(rows, 1):
+                r["serial"] = i
+            inp = os.path.join(workdir, "chains-differing-by-case.cif")
             open(inp, "w").write(emit.emit_cif(rows, label_seq="index"))
         elif "u_as_dt" in case:
             from vmon import emit, gen3d
